@@ -19,8 +19,8 @@ def programs():
     block = src[src.index("Programs =="):src.index("VARIABLES prog")]
     out = []
     for chunk in re.split(r"\\\*\s*\d+:", block)[1:]:
-        nodes = [(k, int(p), [int(x) for x in kids.replace(" ", "").split(",") if x])
-                 for k, p, kids in re.findall(r'P\("(\w+)",\s*(\d+),\s*<<([\d, ]*)>>\)', chunk)]
+        nodes = [(k, int(p), [int(x) for x in kids.replace(" ", "").split(",") if x], name)
+                 for k, p, kids, name in re.findall(r'PN?\("(\w+)",\s*(\d+),\s*<<([\d, ]*)>>(?:,\s*"(\w*)")?\)', chunk)]
         out.append(nodes)
     return out
 
@@ -30,9 +30,10 @@ def render(nodes):
     lines, ids = [], {1: "root"}
 
     def emit(n, depth):
-        kind, _, kids = nodes[n - 1]
+        kind, _, kids, name = nodes[n - 1]
         if kind != "prog":
-            text = {"mark": f"Mark: m{n}", "block": f"Block: b{n}", "end": "End block", "watch": f"Watch: {COND}", "alarm": f"Alarm: {COND}"}[kind]
+            text = {"mark": f"Mark: m{n}", "block": f"Block: b{n}", "end": "End block", "watch": f"Watch: {COND}", "alarm": f"Alarm: {COND}",
+                    "macro": f"Macro: {name}", "call": f"Call macro: {name}"}[kind]
             lines.append("    " * depth + text)
             ids[n] = f"L{len(lines)}"
         for k in kids:
@@ -54,13 +55,17 @@ def _observe(run, ids, nodes):
         tag = int(blk[1:])
     mark = snap["mark"]
     marks = [] if mark in ("none", "") else [int(x.strip()[1:]) for x in mark.split(";")]
-    runs = [0] * len(nodes)
+    runs, mstart, mdone = [0] * len(nodes), [0] * len(nodes), [0] * len(nodes)
     interp = run.engine.interpreter
     for n in interp._program.get_all_nodes():
         if str(n.id) in back and hasattr(n, "run_count"):
             runs[back[str(n.id)] - 1] = int(n.run_count)
+        if str(n.id) in back and hasattr(n, "run_started_count"):
+            mstart[back[str(n.id)] - 1] = int(n.run_started_count)
+            mdone[back[str(n.id)] - 1] = int(n.run_completed_count)
     return {"started": nums("started"), "completed": nums("completed"), "locked": nums("locked"), "ended": nums("ended"),
-            "registered": nums("registered"), "activated": nums("activated"), "tag": tag, "marks": marks, "runs": runs}
+            "registered": nums("registered"), "activated": nums("activated"), "tag": tag, "marks": marks, "runs": runs,
+            "failed": nums("failed"), "mstart": mstart, "mdone": mdone}
 
 
 def _run(pi, nodes, inputs, tid):
